@@ -12,7 +12,7 @@ replaces one construct by the behaviour the detector is known to have for it (ea
 KNOWN_FINDINGS.txt).  The check accepts a verdict that differs from "exact" only when the mode
 semantics reproduce it, and then reports the finding by its key.
 
-Families (tags): random, shift, seq, cross, func, inst, wide, cond, carry, dyn, blockshift, array, opaque.
+Families (tags): random, shift, seq, cross, func, inst, wide, cond, carry, dyn, blockshift, array, fallback, opaque.
 """
 import random
 
@@ -498,12 +498,25 @@ def _vall(v):
     return frozenset(out)
 
 
+_RDM = [None]     # members map of the partition the design is seen through (None: the design as it is)
+
+
+def _rdb(st, n):
+    rdm = _RDM[0]
+    if rdm is None or n not in rdm:
+        return st.get(n, frozenset([n]))
+    out = frozenset()
+    for k in rdm[n]:
+        out |= st.get(k, frozenset([k]))
+    return out
+
+
 def py_eval(e, st, funcs, depth):
     t = e[0]
     if t == "const":
         return [frozenset()] * e[1]
     if t == "ref":
-        return [st.get(n, frozenset([n])) for n in range(e[1], e[1] + e[2])]
+        return [_rdb(st, n) for n in range(e[1], e[1] + e[2])]
     if t == "cat":
         out = []
         for p in e[1]:
@@ -629,12 +642,17 @@ def py_lower(funcs, it, cls):
     return g
 
 
-def py_graph(root, cls=None):
+def py_graph(root, cls=None, members=None):
+    """members: {bit: all bits of its class} -> one SSA version per class (a read of a bit reads its class)"""
     cls = cls or (lambda n: n)
     funcs, items = root
     g = []
-    for it in items:
-        g += py_lower(funcs, it, cls)
+    _RDM[0] = members
+    try:
+        for it in items:
+            g += py_lower(funcs, it, cls)
+    finally:
+        _RDM[0] = None
     return g
 
 
@@ -1420,6 +1438,50 @@ def fam_array(rng):
     return Design([m], "array", [shape])
 
 
+def fam_fallback(rng):
+    """x = D; then a branch some arms of which leave x alone: the value from before the branch stays
+    reachable, so a loop that closes through D is real (and one that closes only through an arm too)"""
+    m = Module("Top")
+    w = rng.choice([1, 2, 3, 4])
+    i0 = m.add(Var("i0", "vec", w, role="in"))
+    c = m.add(Var("c0", "vec", 2, role="in"))
+    x = m.add(Var("x", "vec", w))
+    y = m.add(Var("y", "vec", w))
+    z = m.add(Var("z", "vec", w))
+    o = m.add(Var("o0", "vec", w, role="out"))
+    I0, Y = ("ref", Ref(i0, 0, w)), ("ref", Ref(y, 0, w))
+    via = rng.choice(["default", "default", "arm", "none", "none"])
+    D = ("bit", "&", Y, I0) if via == "default" else I0
+    Bx = ("bit", "|", Y, I0) if via == "arm" else ("not", I0)
+    ax = [("assign", Ref(x, 0, w), Bx)]
+    az = [("assign", Ref(z, 0, w), I0)]
+    cb = ("ref", Ref(c, rng.randint(0, 1), 1))
+    shape = rng.choice(["if_no_else", "if_else_only", "case_no_default", "case_default_only", "nested", "two_ifs"])
+    body = [("assign", Ref(x, 0, w), D), ("assign", Ref(z, 0, w), ("not", I0))]
+    if shape == "if_no_else":
+        body.append(("if", cb, ax, None))
+    elif shape == "if_else_only":
+        body.append(("if", cb, az, ax))
+    elif shape == "case_no_default":
+        vals = rng.sample(range(4), rng.choice([1, 2, 3]))
+        k = rng.randrange(len(vals))
+        body.append(("case", ("ref", Ref(c, 0, 2)), [(v, ax if j == k else az) for j, v in enumerate(vals)], None))
+    elif shape == "case_default_only":
+        vals = rng.sample(range(4), rng.choice([1, 2]))
+        body.append(("case", ("ref", Ref(c, 0, 2)), [(v, az) for v in vals], ax))
+    elif shape == "nested":
+        body.append(("if", cb, [("if", ("ref", Ref(i0, 0, 1)), ax, None)], az))
+    else:
+        body.append(("if", cb, az, None))
+        body.append(("if", ("ref", Ref(c, 0, 1)), ax, None))
+    m.items.append(("comb", body))
+    m.items.append(("assign", Ref(y, 0, w), ("bit", "^", ("ref", Ref(x, 0, w)), ("ref", Ref(z, 0, w)))
+                    if rng.random() < 0.5 else ("ref", Ref(x, 0, w))))
+    m.items.append(("assign", Ref(o, 0, w), Y))
+    rng.shuffle(m.items)
+    return Design([m], "fallback", [shape, via])
+
+
 def fam_opaque(rng):
     """constructs the checker documents as opaque; only "no false positive" is required: the abstract
     design holds the visible part only (the opaque construct contributes no edge)"""
@@ -1449,7 +1511,7 @@ def fam_opaque(rng):
 
 
 FAMILIES = [("random", 28), ("shift", 10), ("seq", 9), ("cross", 8), ("cond", 10), ("func", 8), ("inst", 9),
-            ("wide", 6), ("carry", 3), ("dyn", 4), ("opaque", 3), ("blockshift", 4), ("array", 6)]
+            ("wide", 6), ("carry", 3), ("dyn", 4), ("opaque", 3), ("blockshift", 4), ("array", 6), ("fallback", 7)]
 
 
 def gen_design(rng):
@@ -1462,7 +1524,7 @@ def gen_design(rng):
         return Design([m], "random", ["wide"] if wide else [])
     return {"shift": fam_shift, "seq": fam_seq, "cross": fam_cross, "cond": fam_cond, "func": fam_func,
             "inst": fam_inst, "wide": fam_wide, "carry": fam_carry, "dyn": fam_dyn, "opaque": fam_opaque,
-            "blockshift": fam_blockshift, "array": fam_array}[fam](rng)
+            "blockshift": fam_blockshift, "array": fam_array, "fallback": fam_fallback}[fam](rng)
 
 
 def access_spans(design):
